@@ -49,7 +49,7 @@ def run(chk):
         for k in range(n):
             items = printer.gen_items(chk.rng, allow_services=False)
             files = {}
-            mode = chk.rng.choice(["valid", "undeclared", "forward", "self", "via-module", "valid", "via-nested-modules", "module-uses-outside-type"])
+            mode = chk.rng.choice(["valid", "undeclared", "forward", "self", "via-module", "valid", "via-nested-modules", "module-uses-outside-type", "binding-name-as-type"])
             structs = [i for i, it in enumerate(items) if it[0] == "struct"]
             expect_err = None
             if mode == "via-module":
@@ -64,6 +64,17 @@ def run(chk):
                     si, name = chk.rng.choice(later), chk.rng.choice(mnames)        # imported earlier: fine
                 elif earlier:
                     si, name = chk.rng.choice(earlier), chk.rng.choice(mnames)      # used before the import: error
+                    expect_err = (name, items[si][1])
+                else:
+                    si, name = None, None
+            elif mode == "binding-name-as-type":
+                # the name a binding gives its struct (`impl can for S0 as S0Alt`) is not a type: a later field typed with it is an
+                # undeclared reference
+                aliases = [(i, it[3]) for i, it in enumerate(items) if it[0] == "impl" and it[3] is not None
+                           and it[3] not in [x[1] for x in items if x[0] in ("struct", "enum")]]
+                cand = [(a, n, j) for a, n in aliases for j, it in enumerate(items) if it[0] == "struct" and j > a]
+                if cand:
+                    _, name, si = chk.rng.choice(cand)
                     expect_err = (name, items[si][1])
                 else:
                     si, name = None, None
